@@ -68,6 +68,18 @@ TARGETED = {
     "star-in-index-and-return": "def f(*a):\n    return (*a, 0)\nt = (1, 2)\nd = {(1, 2, 3): 'v'}\nprint(f(*t), d[(*t, 3)])\nfor x in (*t, 9):\n    print(x)\n",
     "genexp-sole-argument-and-ternary-lambda": "print(sum((i * 2 for i in range(3))), (lambda: 1 if True else 2)(), (lambda: (yield_ := 3))())\n",
     "unary-and-power-and-await-free": "a = 2\nprint(-a ** 2, (-a) ** 2, 2 ** -a, not a == 2, (not a) == 2, a if a else -a)\n",
+    # host-sensitive shapes: the converter reads the host's symbol tables, which changed at 3.12 (PEP 709 inlines
+    # list/set/dict comprehensions; generator expressions and lambdas keep their own table)
+    "host-global-read-only-in-comprehension": "x = 'module'\ndef outer():\n    x = 'outer-local'\n    def mid():\n        global x\n        def inner():\n            return [x for _ in range(1)], list(x for _ in range(1)), {x for _ in range(1)}, {1: x for _ in range(1)}, (lambda: x)()\n        return inner()\n    return mid(), x\nprint(outer())\n",
+    "host-global-declared-in-reader": "x = 'module'\ndef outer():\n    x = 'outer-local'\n    def inner():\n        global x\n        return [x for _ in range(1)], [y for y in [x]], x\n    return inner(), x\nprint(outer())\n",
+    "host-nonlocal-read-only-in-comprehension": "def outer():\n    v = 1\n    def bump():\n        nonlocal v\n        v += 1\n    def reader():\n        return [v for _ in range(2)], sum(v for _ in range(2)), (lambda: v)(), {v: v for _ in range(1)}\n    bump()\n    return reader()\nprint(outer())\n",
+    "host-class-in-function-comprehension": "g = 'global'\ndef mk(p):\n    loc = 'local'\n    class K:\n        a = [loc for _ in range(1)]\n        b = [p for _ in range(1)]\n        c = [g for _ in range(1)]\n        d = list(loc for _ in range(1))\n        e = [q for q in [loc, p, g]]\n        f = (lambda: (loc, p, g))()\n    return K.a, K.b, K.c, K.d, K.e, K.f\nprint(mk('param'))\n",
+    "host-module-class-comprehension": "g = 'global'\nclass K:\n    rows = [1, 2]\n    a = [r * 2 for r in rows]\n    b = [g for _ in rows]\n    c = sum(r for r in rows)\n    d = [(r, s) for r in rows for s in [g]]\nprint(K.a, K.b, K.c, K.d)\n",
+    "host-nested-comprehension-capture": "def f(n):\n    fs = [lambda i=i: i + n for i in range(3)]\n    gs = [[i * j + n for j in range(2)] for i in range(2)]\n    hs = {k: [n for _ in range(k)] for k in range(2)}\n    return [h() for h in fs], gs, hs\nprint(f(10))\n",
+    "host-comprehension-target-shadows-captured": "def f():\n    x = 'captured'\n    def g():\n        return x\n    r = [x for x in 'ab']\n    s = [[x for x in 'c'] for _ in 'd']\n    return r, s, x, g()\nprint(f())\n",
+    "host-walrus-in-comprehension-scopes": "def f():\n    t = 0\n    def g():\n        return t\n    r = [(t := t + i) for i in range(3)]\n    return r, t, g()\nprint(f())\nu = [(w := i) for i in range(2)]\nprint(u, w)\n",
+    "host-method-super-and-comprehension": "class B:\n    def m(self):\n        return 'B'\nclass C(B):\n    tags = ['x', 'y']\n    def m(self):\n        return [super(C, self).m() + t for t in self.tags], [t for t in C.tags]\nprint(C().m())\n",
+    "host-genexp-in-class-and-function": "g = 2\nclass K:\n    n = sum(i * g for i in range(3))\n    def m(self, k=g):\n        return sum(i * k * g for i in range(3))\ndef f(a):\n    return sum(i * a * g for i in range(3)), max((a for _ in range(1)))\nprint(K.n, K().m(), f(3))\n",
     "matrix-mult-and-ops": "class M:\n    def __matmul__(s, o):\n        return 'mm'\n    def __imatmul__(s, o):\n        return 'imm'\nm = M()\nprint(m @ 1)\nm @= 2\nprint(m, 7 // 2, 2 ** -1, ~5, 5 >> 1)\n",
 }
 
@@ -113,6 +125,21 @@ def sources(rec, size):
         yield "targeted:" + name, src
     for f in sorted(glob.glob(os.path.join(envs.REPO, "oneliner_tests", "test_cases", "*.py"))):
         yield "repo:" + os.path.basename(f), open(f).read()
+    # scope trees (the converter's symbol-table handling differs per *host* version: the same program must give
+    # text that behaves identically whichever host produced it)
+    import random as _random
+    from ..gen import scopes as sc
+    rng = _random.Random(rec.seed * 6151 + 3)
+    prelude = "def log(*a):\n    print(a[:-1], type(a[-1]).__name__ if callable(a[-1]) or type(a[-1]).__name__ == 'module' else a[-1])\n    return a[-1]\n"
+    for i in range(size["n"] // 2):
+        t = sc.random_tree(rng, rng.choice([3, 3, 4]), "M")
+        src = prelude + sc.program(rng.choice(sc.ROLES["M"]), t)
+        try:
+            if findings.cpython_inlined_comprehension_cell_bug(ast.parse(src)):
+                continue
+        except SyntaxError:
+            continue
+        yield "scope:%d" % i, src
     w = {"walrus": 2, "lambdadef": 2, "def": 1, "class": 1, "nestunpack": 1, "import": 1}
     for i in range(size["n"]):
         seed = rec.seed * 1000003 + 900000 + i
